@@ -15,13 +15,13 @@ CLAIMED = {
             "controlled-scheduler schedule search + linearizability check", "4 C04"),
     "C05": ("exploration", "abs() against an independent reference resolver under varied cwd/HOME, and every other method executed with respelled arguments next to a twin instance that receives the canonical spelling (outcomes and states must coincide), on Memfs and - in two sibling tmpfs sandboxes - on Stdfs",
             "seeded simulation, metamorphic twin execution", "4 C05"),
-    "C06": ("exploration", "content profile (write/append/line helpers/handles/copy/move) with all data kinds and handle faults F1-F4 against a byte-vector model; DIFF leg: the same operations on Stdfs and Memfs with an independent std::fs reader",
+    "C06": ("exploration", "content profile (write/append/line helpers/handles/copy/move) with all data kinds and handle faults F1-F4 against a byte-vector model; DIFF leg: the same operations incl. write/append handles (flushed after every write) on Stdfs and Memfs with an independent std::fs reader",
             "seeded simulation with handle-lifecycle fault injection, byte-vector model", "4 C06"),
-    "C07": ("fault_enumeration", "handles as actors: read/seek sequences mirrored on a cursor model; write/append handles dropped at every point of their write sequence: for generated chunkings every prefix x {drop, drop by unwinding} x {file untouched, removed, replaced by a directory, replaced by a new file, moved} x {write, append} is executed and judged",
+    "C07": ("fault_enumeration", "handles as actors: read/seek sequences mirrored on a cursor model; write/append handles dropped at every point of their write sequence: for generated chunkings every prefix x {drop, drop by unwinding} x {file untouched, removed, replaced by a directory, replaced by a new file, moved} x {write, append} is executed and judged; DIFF leg: read/seek/write/append handle histories on Stdfs and Memfs side by side",
             "drop-point fault injection inside seeded histories", "4 C07"),
     "C08": ("exploration", "entries() option cross-product under simulator-chosen enumeration order and descriptor cap on trees with links, cycles and dangling links; multiset + stated order constraints from an independent traversal of the model; listing helpers strict; DIFF leg on Stdfs",
             "seeded simulation with enumeration-order / descriptor-cap injection", "4 C08"),
-    "C09": ("exploration", "copy / copy_b (all Copier options) / move_p on generated trees and path pairs (nested, conflicting, links), pre/post state judged by the model; failed move leaves the state identical; DIFF leg on Stdfs",
+    "C09": ("exploration", "copy / copy_b (all Copier options) / move_p on generated trees and path pairs (nested, conflicting, links), pre/post state judged by the model; failed move leaves the state identical; DIFF leg on Stdfs; SOLO leg: Stdfs alone on trees with indirect links (source untouched by a successful copy, failed move changes nothing)",
             "seeded simulation, pre/post snapshot oracle", "4 C09"),
     "C10": ("exploration", "link laws after every symlink and on every query in link-bearing histories (readlink/readlink_abs, link exclusion, kind at creation, remove/chmod/chown act on the link, follow swaps once); DIFF leg on Stdfs incl. dangling targets",
             "seeded simulation, reference model of link semantics", "4 C10"),
